@@ -3,6 +3,30 @@
 import json, os
 
 CLAIMS = {
+ "C12": {
+  "text": "Decides: source routing of the access ops (ThisAddress / ThisContractAddress read the predicate / contract field of this_solution(); PredicateData* read this_solution().predicate_data; PredicateExists receives the whole set); checked range resolution (usize::try_from, checked_add, slice.get only, the popped words feed (value_ix, len) in the documented order); sibling encodings agree (the VM's and essential-sign's 33-byte public-key encodings have the same structure, recover pops id / 8 / 4 words and rebuilds the compact signature and digest, the 9-word signature layout); every SHA-256 user is new/update(input)/finalize; the PredicateExists pre-image order (len-prefixed slots, contract, predicate, big-endian bytes); five zero words on an unrecoverable signature. Partial claim: byte-length marshalling (pop_bytes rounding/truncation) and cryptographic answers are not decided.",
+  "note": "Trusted: sha2, secp256k1, ed25519-dalek.",
+  "technique": "static analysis: provenance of call arguments against expected source fields, structural comparison of sibling encoders, call-sequence whitelists",
+  "design_ref": "3/C12",
+ },
+ "C14": {
+  "text": "Decides: mapping decides acceptance only through Opcode::try_from and ParseOp::parse_op on one byte iterator (exactly two rejecting paths, Ok only at end of input) - the same two functions the list parser uses; exec_ops/exec_bytecode/eval_ops and the TryFrom impls are single forwarding calls; the index table and bytes are private and written only by try_from_bytes (offset of each accepted opcode byte, after parse_op succeeded), push_op (len before extend with to_bytes), Default and FromIterator via push_op; op(ix) is the first of ops_from(ix), the OpAccess impls are get/op(ix).map(Ok), compute children get a clone of the same accessor. Partial claim: equality of final machine states between the two execution paths follows from these + C13 informally.",
+  "note": "Backs the expects in expect_ops_from_indices reviewed under C05/C06.",
+  "technique": "static analysis: return tables, who-may-write rule for private fields, exact call-sequence comparison of thin wrappers",
+  "design_ref": "3/C14",
+ },
+ "C18": {
+  "text": "Partial claim: round-trip equality over all values is value-level and NOT decided. Decided necessary conditions: big-endian pair and identity layouts of the four fixed-width converters and of Signature <-> [u8; 65]; every serde serializer/deserializer pair branches on is_human_readable with the same polarity and the same family (hex / sequence) on each side; predicate and mutation encoders, size helpers and decoders agree on offsets (linear forms), the list codec writes/reads the count first and advances by encode_size; node_edges is empty exactly for edge_start == MAX and otherwise a checked sub-range; the legacy field names (data, decision_variables) reach the same fields as the current names and only current names are written; Display/FromStr use encode_upper/decode with the same array length.",
+  "note": "Trusted: hex, serde, postcard. Breaking any decided clause breaks a round trip; the converse is not claimed.",
+  "technique": "static analysis: aggregate-element provenance (layouts), path-condition polarity pairing, symbolic linear forms of offsets, string-literal to field tables of derive-generated visitors",
+  "design_ref": "3/C18",
+ },
+ "C19": {
+  "text": "Decides: sign, verify and recover each hash the contract they are given with content_addr and use exactly those 32 bytes as the secp256k1 message digest, signing / recovering with exactly that message, storing the compact signature with its own recovery id (order independence of the digest: sort-before-hash of the contract address, re-evaluated here); malformed recovery ids / signatures take `?` error paths and no unreviewed panic-capable construct is reachable from the signing API or check_signed_contract (panic-path engine); check_signed_contract accepts only after verify and check_contract succeeded; the word encodings are those the VM's recovery op consumes/produces. Partial claim: that tampering changes the recovered key is cryptography (trusted).",
+  "note": "Trusted: secp256k1; C17 for the contract address.",
+  "technique": "static analysis: provenance of digests through the call chain, return tables, panic-site enumeration with dominance-based discharge",
+  "design_ref": "3/C19",
+ },
  "C01": {
   "text": "Partial claim. The behavioural equivalence with the graph reference semantics (exactly-once execution, numbering independence, concatenation order, gas/data-output equality) is NOT decided by static analysis. Decided clauses: graph validation (parent map, level order) dominates every site that can start a node program; an empty level while nodes remain (cycle) and invalid edge ranges are errors; every edge value used as a node index is compared with nodes.len(); the leaf interpretation table is exactly [1] -> satisfied, [2] -> data output of vm.memory, anything else -> unsatisfied, with leaf = node without edges and parents exporting (stack, memory); parent inputs are taken from the parent map in ascending order and each node runs the program of its own address. Deferral closure and the run-mode split are decided under C03.",
   "note": "These are necessary conditions of the property; breaking any of them changes verdicts. The sufficient direction is out of reach for this technique family.",
